@@ -187,6 +187,32 @@ def scat(parts):
     return T("scat", out, STR)
 
 
+def normalize(form, x):
+    """unicodedata.normalize. For the decomposing forms NFD / NFKD an ASCII literal splits the string exactly: ASCII characters
+    are starters and decompose to themselves, and canonical reordering never crosses a starter."""
+    if isinstance(x, str):
+        import unicodedata
+        try:
+            return unicodedata.normalize(form, x)
+        except (ValueError, TypeError):
+            pass
+    if form in ("NFD", "NFKD") and isinstance(x, T) and x.op == "scat" and any(isinstance(q, str) and q.isascii() for q in x.args):
+        return scat([q if isinstance(q, str) and q.isascii() else normalize(form, q) for q in x.args])
+    return T("normalize", (form, x), STR)
+
+
+def encode(x, enc):
+    """str.encode for the UTF-8 / ASCII family distributes over concatenation."""
+    if isinstance(x, str) and isinstance(enc, str):
+        try:
+            return x.encode(enc)
+        except (UnicodeError, LookupError):
+            pass
+    if enc in ("utf8", "ascii") and isinstance(x, T) and x.op == "scat":
+        return cat([encode(q, enc) for q in x.args])
+    return T("encode", (x, enc), BYTES)
+
+
 def lcat(parts):
     """list concatenation; concrete-structure lists are merged."""
     out = []
